@@ -248,4 +248,40 @@ Corollary tucker_rescale_err2 s rs X (G G' : list nat -> F) us us' ds :
 Proof.
   intros Hs HG. unfold dist2. apply SI_ext; intros idx Hi. now rewrite (tucker_entry_rescale s rs G G' us us' ds Hs HG idx Hi).
 Qed.
+(* ------------------------------------------------------------------------------------------
+   8. error_calc on data, whichever branch it takes (round 5)
+   ------------------------------------------------------------------------------------------ *)
+Lemma err_explicit_plain (X : tensor F) (L : list nat -> F) :
+  err_explicit Op X L None None = (dist2 Op (shape X) (tfun Op X) L, normsq Op (shape X) (tfun Op X)).
+Proof.
+  unfold err_explicit. f_equal. unfold dist2. apply SI_ext; intros idx _. unfold imputed, sparse_fun, sq. ring.
+Qed.
+Lemma colsT_length (fs : list (tensor F)) r : length (colsT Op fs r) = length fs.
+Proof. unfold colsT. apply map_length. Qed.
+(* the executed shortcut (the model's own MTTKRP of mode n) IS the executed residual from scratch: what KCPfast re-checks per instance *)
+Theorem err_shortcut_is_true (X : tensor F) R w fs n : n < length (shape X) -> length fs = length (shape X) ->
+  err_shortcut Op X R w fs n = err_cp_true Op X R w fs None None.
+Proof.
+  intros Hn HL. unfold err_shortcut, err_cp_true. rewrite err_explicit_plain. f_equal.
+  rewrite (err2_fast_correct (shape X) (tfun Op X) R (wfun Op w) (wfun Op w) (ones Op) (colsT Op fs) n Hn).
+  - reflexivity.
+  - intros r _. now rewrite colsT_length.
+  - intros r _. unfold ones. ring.
+Qed.
+(* error_calc with the implementation's MTTKRP handed over: as soon as that matrix IS the MTTKRP of the last mode computed from the
+   current weights / factors, every branch returns the explicit residual (of the imputed tensor, minus the sparse component) *)
+Theorem error_calc_every_branch (X : tensor F) R w fs card mask M :
+  0 < length (shape X) -> length fs = length (shape X) ->
+  (forall Mt, M = Some Mt -> forall i r,
+     get (f0 Op) Mt [i; r] = mttkrp Op (shape X) (tfun Op X) (wfun Op w) (colsT Op fs) (length (shape X) - 1) i r) ->
+  error_calc_model Op X R w fs card mask M
+  = err_explicit Op X (cp_tensor_entry Op R w fs) (sparse_of Op X (cp_tensor_entry Op R w fs) card mask) mask.
+Proof.
+  intros Hs HL HM. unfold error_calc_model.
+  destruct mask as [m|]; [reflexivity|]. destruct M as [Mt|]; [|reflexivity]. destruct card as [c|]; [reflexivity|].
+  cbn [sparse_of]. change (err_explicit Op X (cp_tensor_entry Op R w fs) None None) with (err_cp_true Op X R w fs None None).
+  rewrite <- (err_shortcut_is_true X R w fs (length (shape X) - 1)) by (auto; lia).
+  unfold err_shortcut_with, err_shortcut, err2_fast, err2_fast_with. f_equal. f_equal. f_equal.
+  unfold iprod. apply S_ext; intros r _. f_equal. apply S_ext; intros i _. now rewrite (HM Mt eq_refl).
+Qed.
 End P.
